@@ -7,13 +7,15 @@
      - L2 in full (C02_delivery_exact, C02_setoffset_next, C02_generation_exact, ...), with the
        contract as an explicit hypothesis on labels;
      - C02_conn_offset_advances in full, for arbitrary response bytes;
-     - L1 decoding: see the section "L1" below for what is proved (named _partial) and the full
-       statement kept as a Definition.
+     - L1 decoding: proved for layouts of uncompressed v2 batches, every offset and legal cut
+       (C02_batch_decode_exact_v2_uncompressed_partial, linked to L2 by
+       C02_contract_v2_uncompressed); the full statement is kept as a Definition.
    Three defects of the code found by this check (F1 and two more) were fixed in /repo; their
    witnesses are kept below as regression Examples. *)
 From Coq Require Import List NArith ZArith Bool.
 From KV Require Import Lib.Bits Lib.Bytes Lib.Varint Model.MsgSetReader Model.ReaderModel Spec.FetchSpec
-  Proofs.ReaderBatch Proofs.ReaderProofs Proofs.ReaderLTS.
+  Proofs.ReaderBatch Proofs.ReaderProofs Proofs.ReaderLTS
+  Proofs.ReaderPrim Proofs.ReaderV2 Proofs.ReaderV2Run Proofs.ReaderV2Sound Proofs.ReaderV2Final.
 Import ListNotations.
 Open Scope Z_scope.
 
@@ -22,17 +24,54 @@ Fixpoint formats_ordered (f : Z) (l : layout) {struct l} : Prop :=
   match l with [] => True | b :: t => f <= pb_fmt b /\ formats_ordered (pb_fmt b) t end.
 
 (* C02_batch_decode_exact: for every log, layout (record-less batches included), fetch offset
-   and legal cut, reading the batch to its end yields exactly the stored records in [o, f)
-   where f >= o is Conn.offset after Batch.close, then io.EOF. *)
+   with data at or after it, and legal cut, reading the batch to its end yields exactly the
+   stored records in [o, f) where f >= o is Conn.offset after Batch.close, then io.EOF.
+   NOT proved in this generality (v0/v1 messages, compressed wrappers and compressed v2 batches
+   are covered by the differential only); the proved part is the theorem
+   C02_batch_decode_exact_v2_uncompressed_partial below. *)
 Definition C02_batch_decode_exact_full_statement : Prop :=
   forall (compress : Z -> list N -> list N) (decomp : Z -> list N -> option (list N)),
     (forall c x, decomp c (compress c x) = Some x) ->
   forall log l o k hwm,
     log_ok log -> layout_ok log l -> formats_ordered 0 l ->
-    valid_cut compress l o k -> hwm <> o ->
-    exists fuel0 ms f, forall fuel, (fuel0 <= fuel)%nat ->
-      fetch_run decomp fuel o hwm (fetch_response compress l o k) (Z.of_nat k) false = Some (ms, EEOF, f)
-      /\ fetch_ok log o ms f.
+    from_offset l o <> [] -> valid_cut compress l o k -> hwm <> o ->
+    exists fuel0, forall fuel, (fuel0 <= fuel)%nat ->
+      exists ms f,
+        fetch_run decomp fuel o hwm (fetch_response compress l o k) (Z.of_nat k) false = Some (ms, EEOF, f)
+        /\ fetch_ok log o ms f.
+
+(* proved: the full statement restricted to layouts of UNCOMPRESSED v2 batches whose sizes fit
+   the wire format ([v2ok]: codec 0, lengths and counts below 2^30, record bodies below 2^31):
+   for every such layout — compaction holes at the head, inside and at the tail of batches,
+   record-less batches anywhere, any number in a row —, every fetch offset with data at or after
+   it and every legal cut (any byte position that keeps the first batch whole), the model's
+   Batch.ReadMessage loop returns exactly the stored records in [o, f), in order, with the
+   stored offset / millisecond timestamp / key / value / headers, then io.EOF, and leaves
+   Conn.offset = f >= o.  [fetch_ok] with the exactness of [between] says: the records wholly
+   contained in the received bytes with offset >= o, none else. *)
+Theorem C02_batch_decode_exact_v2_uncompressed_partial :
+  forall (compress : Z -> list N -> list N) (decomp : Z -> list N -> option (list N)) log l o k hwm,
+  log_ok log -> layout_ok log l ->
+  Forall (fun b => pb_fmt b = 2) l -> Forall v2ok l ->
+  from_offset l o <> [] -> valid_cut compress l o k -> hwm <> o ->
+  forall fuel, (S (tokens [] (from_offset l o)) <= fuel)%nat ->
+  exists ms f,
+    fetch_run decomp fuel o hwm (fetch_response compress l o k) (Z.of_nat k) false = Some (ms, EEOF, f)
+    /\ fetch_ok log o ms f.
+Proof. exact batch_decode_exact_v2_uncompressed. Qed.
+Print Assumptions C02_batch_decode_exact_v2_uncompressed_partial.
+
+(* the link L1 -> L2: such a response is a legal answer in the sense of the delivery theorems *)
+Theorem C02_contract_v2_uncompressed :
+  forall (compress : Z -> list N -> list N) (decomp : Z -> list N -> option (list N)) log l k hwm fuel g,
+  log_ok log -> layout_ok log l ->
+  Forall (fun b => pb_fmt b = 2) l -> Forall v2ok l ->
+  from_offset l (g_conn g) <> [] -> valid_cut compress l (g_conn g) k -> hwm <> g_conn g ->
+  (S (tokens [] (from_offset l (g_conn g))) <= fuel)%nat ->
+  ev_ok (fetch_run decomp fuel) log g
+        (GFetch (FData hwm (fetch_response compress l (g_conn g) k) (Z.of_nat k) false)).
+Proof. exact contract_v2_uncompressed. Qed.
+Print Assumptions C02_contract_v2_uncompressed.
 
 (* C02_progress (not proved): a response holding one complete batch with a record >= o delivers
    at least one record *)
